@@ -9,6 +9,8 @@ fn main() {
         "codec_build" => vharness::codecrec::codec_build(&a),
         "codec_parse" => vharness::codecrec::codec_parse(&a),
         "codec_replay" => vharness::codecrec::codec_replay(&a),
+        "mac" => vharness::macdrv::vh_mac(&a),
+        "macreplay" => vharness::macdrv::vh_macreplay(&a),
         other => {
             eprintln!("unknown command {other}");
             std::process::exit(2);
